@@ -114,13 +114,13 @@ class TypeShim(type, metaclass=_TMeta):
 class SBool:
     """Symbolic result of a comparison; forks when its truth value is demanded."""
 
-    __slots__ = ("_t", "_c")
+    __slots__ = ("_b", "_c")
 
     def __init__(self, t, c):
-        self._t, self._c = t, bool(c)
+        self._b, self._c = t, bool(c)
 
     def __bool__(self):
-        return branch(self._t, self._c)
+        return branch(self._b, self._c)
 
     def __index__(self):
         return int(bool(self))
@@ -132,15 +132,15 @@ class SBool:
         if other is NotImplemented:
             return False
         if isinstance(other, SBool):
-            return SBool(self._t == other._t, self._c == other._c)
+            return SBool(self._b == other._b, self._c == other._c)
         if isinstance(other, bool):
-            return SBool(self._t if other else z3.Not(self._t), self._c == other)
+            return SBool(self._b if other else z3.Not(self._b), self._c == other)
         if isinstance(other, int) and not is_sym(other):
             v = int.__index__(other)
             if v == 1:
-                return SBool(self._t, self._c)
+                return SBool(self._b, self._c)
             if v == 0:
-                return SBool(z3.Not(self._t), not self._c)
+                return SBool(z3.Not(self._b), not self._c)
             return False
         return NotImplemented
 
@@ -149,7 +149,7 @@ class SBool:
         if r is NotImplemented:
             return True
         if isinstance(r, SBool):
-            return SBool(z3.Not(r._t), not r._c)
+            return SBool(z3.Not(r._b), not r._c)
         return not r
 
     def __repr__(self):
@@ -162,7 +162,7 @@ class SBool:
 def bool_term(x):
     """z3 Bool for a Python truth-like value produced by the shadows."""
     if isinstance(x, SBool):
-        return x._t
+        return x._b
     if is_sym(x):
         return x._t != 0
     return z3.BoolVal(bool(x))
@@ -179,7 +179,7 @@ def tm(x):
     if t is not None:
         return t
     if isinstance(x, SBool):
-        return z3.If(x._t, z3.IntVal(1), z3.IntVal(0))
+        return z3.If(x._b, z3.IntVal(1), z3.IntVal(0))
     return z3.IntVal(int.__index__(x))
 
 
